@@ -142,6 +142,8 @@ type BinOpts struct {
 	Home   string
 	// VLimitKB sets ulimit -v for the process (0 = none)
 	VLimitKB int
+	// NoFile sets ulimit -n for the process (0 = inherited)
+	NoFile int
 }
 
 type Bin struct {
@@ -174,8 +176,15 @@ func StartBin(o BinOpts) (*Bin, error) {
 		return nil, fmt.Errorf("VERIF_BIN not set")
 	}
 	var cmd *exec.Cmd
-	if o.VLimitKB > 0 {
-		sh := fmt.Sprintf("ulimit -v %d; exec \"$0\" \"$@\"", o.VLimitKB)
+	if o.VLimitKB > 0 || o.NoFile > 0 {
+		sh := ""
+		if o.VLimitKB > 0 {
+			sh += fmt.Sprintf("ulimit -v %d; ", o.VLimitKB)
+		}
+		if o.NoFile > 0 {
+			sh += fmt.Sprintf("ulimit -n %d; ", o.NoFile)
+		}
+		sh += "exec \"$0\" \"$@\""
 		cmd = exec.Command("/bin/sh", append([]string{"-c", sh, bin}, o.Args...)...)
 	} else {
 		cmd = exec.Command(bin, o.Args...)
@@ -379,6 +388,11 @@ func StartServerBin(root string, extra []string, env []string, dir string) (*Bin
 
 // StartServerBinOpts: with an address-space limit (ulimit -v, KB) when vlimitKB > 0.
 func StartServerBinOpts(root string, extra []string, env []string, dir string, vlimitKB int) (*Bin, error) {
+	return StartServerBinLimits(root, extra, env, dir, vlimitKB, 0)
+}
+
+// StartServerBinLimits: address-space limit and descriptor limit (ulimit -n) when > 0.
+func StartServerBinLimits(root string, extra []string, env []string, dir string, vlimitKB, noFile int) (*Bin, error) {
 	var last error
 	for try := 0; try < 5; try++ {
 		port := FreePort()
@@ -388,7 +402,7 @@ func StartServerBinOpts(root string, extra []string, env []string, dir string, v
 			args = append(args, "--root="+root)
 		}
 		args = append(args, extra...)
-		b, err := StartBin(BinOpts{Args: args, Env: env, Dir: dir, VLimitKB: vlimitKB})
+		b, err := StartBin(BinOpts{Args: args, Env: env, Dir: dir, VLimitKB: vlimitKB, NoFile: noFile})
 		if err != nil {
 			return nil, err
 		}
